@@ -73,6 +73,70 @@ def gen_bed_spec(r):
     return chroms, sections
 
 
+def foreign_case(r, cid, bed=None, readers=("plain", "cached"), counter=None):
+    """one file from the independent encoder (None when the independent judge rejects it: generator drift)"""
+    bed = r.chance(1, 3) if bed is None else bed
+    chroms, sections = gen_bed_spec(r) if bed else gen_wig_spec(r)
+    spec = dict(endian=r.choice(["little", "big"]), version=r.choice([1, 2, 3, 4, 4]), compress=r.chance(1, 2),
+                chroms=chroms, sections=sections,
+                chrom_block_size=r.choice([2, 3, 256]) if len(chroms) > 1 else r.choice([1, 2, 256]),
+                rtree_block_size=r.choice([2, 2, 3, 5, 256]), rtree_layout=r.choice(list(bbi_codec.LAYOUTS)),
+                items_per_slot=r.choice([8, 64, 1024]))
+    kind = "bigbed" if bed else "bigwig"
+    if len(chroms) > 1 and r.chance(1, 3):
+        # chromosome ids that do NOT follow the name order of the chromosome tree (legal: ids only have to be
+        # unique and dense; the data and the index are ordered by id). bigtools' own writer never produces this.
+        perm = list(range(len(chroms)))
+        while perm == sorted(perm):
+            perm = [perm.pop(r.below(len(perm))) for _ in range(len(perm))]
+        spec["ids"] = perm
+        for s_ in sections:
+            s_["chrom"] = perm[s_["chrom"]]
+        sections.sort(key=lambda s_: s_["chrom"])
+        spec["sections"] = sections
+    if r.chance(2, 3):
+        try:
+            spec["zooms"] = bbi_codec._zooms_for(kind, spec, r.choice([[8], [8, 32], [16, 64, 256]]))
+        except Exception:
+            spec["zooms"] = []
+    else:
+        spec["zooms"] = []
+    try:
+        data = bbi_codec.encode_bigbed(spec) if bed else bbi_codec.encode_bigwig(spec)
+        problems = bbi_codec.check(data)
+    except Exception as e:
+        problems = [f"encoder failed: {e}"]
+        data = b""
+    if problems:
+        return None
+    dec = bbi_codec.decode(data)
+    names = [c[0] for c in chroms]
+    sizes = {c[0]: c[1] for c in chroms}
+    content = dec["entries"] if bed else dec["values"]
+    ids = {c["name"]: c["id"] for c in dec["chroms"]}
+    data_by_name = {nm: [tuple(x[:3]) for x in content.get(ids[nm], [])] for nm in names}
+    lines = [f"OPT reader={r.choice(list(readers))}", "FILEHEX " + data.hex()]
+    for t in dec["inflate_table"]:
+        lines.append(f"INFLATE {t[0]} {t[1]} {t[2] or '-'}")
+    for nm in names:
+        lines.append(f"Q iv {nm} 0 {sizes[nm]}")
+    kinds = ["iv", "iv"] + ([] if bed else ["vals"]) + (["zoom"] if spec["zooms"] else [])
+    present = [nm for nm in names if data_by_name[nm]] or names
+    lines += bbgen.gen_queries(r, present, sizes, data_by_name, kinds, 8, zoom_levels=len(spec["zooms"]), strict_nonempty=bed)
+    for lv in range(len(spec["zooms"])):
+        lines.append(f"Q zoom {present[0]} 0 {sizes[present[0]]} #{lv}")
+    tags = {kind, spec["endian"], "ids_permuted" if spec.get("ids") else "ids_in_name_order", "zlib" if spec["compress"] else "raw", "layout_" + spec["rtree_layout"],
+            f"version_{spec['version']}", f"fanout_{spec['rtree_block_size']}", f"chromtree_{spec['chrom_block_size']}"}
+    if not bed:
+        for s in sections:
+            tags.add(f"section_type_{s['type']}")
+    if dec["index"]["depth"] > 1:
+        tags.add("multi_level_index")
+    if spec["endian"] == "big" or dec["index"]["depth"] > 1 or any(s.get("type", 1) != 1 for s in sections):
+        tags.add("nt")
+    return CaseT(cid, "readbed" if bed else "readwig", [], lines, tags)
+
+
 class C10(WigBedProp):
     pid = "C10"
     view_tags = ("OPEN", "CHROMS", "ZOOMS", "A")
@@ -90,57 +154,11 @@ class C10(WigBedProp):
         out = []
         self.rejected_by_judge = 0
         for k in range(n):
-            r = rng.fork(k)
-            bed = r.chance(1, 3)
-            chroms, sections = gen_bed_spec(r) if bed else gen_wig_spec(r)
-            spec = dict(endian=r.choice(["little", "big"]), version=r.choice([1, 2, 3, 4, 4]), compress=r.chance(1, 2),
-                        chroms=chroms, sections=sections,
-                        chrom_block_size=r.choice([2, 3, 256]) if len(chroms) > 1 else r.choice([1, 2, 256]),
-                        rtree_block_size=r.choice([2, 2, 3, 5, 256]), rtree_layout=r.choice(list(bbi_codec.LAYOUTS)),
-                        items_per_slot=r.choice([8, 64, 1024]))
-            kind = "bigbed" if bed else "bigwig"
-            if r.chance(2, 3):
-                try:
-                    spec["zooms"] = bbi_codec._zooms_for(kind, spec, r.choice([[8], [8, 32], [16, 64, 256]]))
-                except Exception:
-                    spec["zooms"] = []
-            else:
-                spec["zooms"] = []
-            try:
-                data = bbi_codec.encode_bigbed(spec) if bed else bbi_codec.encode_bigwig(spec)
-                problems = bbi_codec.check(data)
-            except Exception as e:
-                problems = [f"encoder failed: {e}"]
-                data = b""
-            if problems:
+            c = foreign_case(rng.fork(k), f"x{k}")
+            if c is None:
                 self.rejected_by_judge += 1          # generator drift: never handed to the readers
                 continue
-            dec = bbi_codec.decode(data)
-            names = [c[0] for c in chroms]
-            sizes = {c[0]: c[1] for c in chroms}
-            content = dec["entries"] if bed else dec["values"]
-            ids = {c["name"]: c["id"] for c in dec["chroms"]}
-            data_by_name = {nm: [tuple(x[:3]) for x in content.get(ids[nm], [])] for nm in names}
-            lines = [f"OPT reader={r.choice(['plain', 'cached'])}", "FILEHEX " + data.hex()]
-            for t in dec["inflate_table"]:
-                lines.append(f"INFLATE {t[0]} {t[1]} {t[2] or '-'}")
-            for nm in names:
-                lines.append(f"Q iv {nm} 0 {sizes[nm]}")
-            kinds = ["iv", "iv"] + ([] if bed else ["vals"]) + (["zoom"] if spec["zooms"] else [])
-            present = [nm for nm in names if data_by_name[nm]] or names
-            lines += bbgen.gen_queries(r, present, sizes, data_by_name, kinds, 8, zoom_levels=len(spec["zooms"]), strict_nonempty=bed)
-            for lv in range(len(spec["zooms"])):
-                lines.append(f"Q zoom {present[0]} 0 {sizes[present[0]]} #{lv}")
-            tags = {kind, spec["endian"], "zlib" if spec["compress"] else "raw", "layout_" + spec["rtree_layout"],
-                    f"version_{spec['version']}", f"fanout_{spec['rtree_block_size']}", f"chromtree_{spec['chrom_block_size']}"}
-            if not bed:
-                for s in sections:
-                    tags.add(f"section_type_{s['type']}")
-            if dec["index"]["depth"] > 1:
-                tags.add("multi_level_index")
-            if spec["endian"] == "big" or dec["index"]["depth"] > 1 or any(s.get("type", 1) != 1 for s in sections):
-                tags.add("nt")
-            out.append(CaseT(f"x{k}", "readbed" if bed else "readwig", [], lines, tags))
+            out.append(c)
         return out
 
     def nontrivial(self, case, il):
